@@ -148,4 +148,97 @@ theorem C01_recv_runs_only_allowed {c : Conf} (h : Reach C O st0 script picks c)
   have hm : Ev.neg f st req false true r ∈ c.tr := by rw [ht]; exact List.mem_cons_self
   exact ⟨C01_advertised_at h [] rest ht, C01_once_at h [] rest ht, C01_negotiable h hm, C01_prereq h hm⟩
 
+/-! ### established only when nothing mandatory is left -/
+
+/-- **ready is sound**: if success is reported although neither the caller nor any feature's
+own mask supplied the ready bit — i.e. the library itself decided that negotiation is
+complete — then the final state is `stb ||| Ready` for the state `stb` in which that decision
+was taken, and no mandatory, negotiable feature of the last features list (as cached: configured
+and eligible when the list was read) whose prerequisites hold in `stb` is left un-negotiated -/
+theorem C01_ready_sound {c : Conf} (h : Reach C O st0 script picks c) (hd : c.pc = .done)
+    (h0 : has st0 bReady = false) (hf : ¬ FeatReady c.tr) :
+    has c.st bReady = true ∧ ∃ stb, c.st = stb ||| bReady ∧ NoMandLeft c stb := by
+  have hr := (invC_reach h).doneReady hd
+  refine ⟨hr, ?_⟩
+  rcases (invR_reach h).top (Or.inr hd) hr with h1 | h1 | h1
+  · rw [h0] at h1; cases h1
+  · exact absurd h1 hf
+  · exact h1
+
+/-! ### voluntary before mandatory -/
+
+/-- **voluntary first**: whenever the initiator's selection loop negotiates a mandatory entry
+of the list (the step from a configuration at the loop head logs a non-forced `Negotiate`
+with `req = true`), no voluntary candidate was open: every cached feature that is
+negotiable, not yet negotiated on this stream and eligible in the current state is mandatory.
+Holds for every pick the map iteration can make. -/
+theorem C01_voluntary_first (c : Conf) (hpc : c.pc = .cloop false)
+    {f : Feature} {st : St} {srv : Bool} {r : NegRes}
+    (he : (step C O c).tr = Ev.neg f st true false srv r :: c.tr) :
+    ∀ e' ∈ candidates c, e'.req = true := by
+  revert he
+  unfold step
+  simp only [hpc, negotiate, Conf.log, Conf.goto]
+  repeat' split
+  all_goals (try dsimp only)
+  all_goals intro he
+  all_goals first
+    | exact absurd he.symm (List.cons_ne_self _ _)
+    | (injection he with h1 h2
+       injection h1 with _ _ hreq
+       have hm := List.mem_of_find?_eq_some ‹List.find? _ (allowed (candidates c)) = some _›
+       exact allowed_mandatory hm hreq)
+
+/-! ### non-vacuity: concrete runs that satisfy the hypotheses of the theorems above -/
+
+def fTls : Feature := ⟨0, ⟨nsTLS, 1⟩, 0, bSecure, true⟩
+def fSasl : Feature := ⟨1, ⟨2, 1⟩, bSecure, bAuthn, true⟩
+def fVol : Feature := ⟨2, ⟨4, 1⟩, bAuthn, 0, true⟩
+def fBind : Feature := ⟨3, ⟨3, 1⟩, bAuthn, bReady, true⟩
+def demoC : List Feature := [fTls, fSasl, fVol, fBind]
+
+/-- STARTTLS and authentication restart the stream, the voluntary feature does nothing, the
+last feature is mandatory; no callback fails -/
+def demoO : Oracle :=
+  { neg := fun _ f _ =>
+      if f.id == 0 then ⟨bSecure, true, false⟩ else if f.id == 1 then ⟨bAuthn, true, false⟩
+      else ⟨0, false, false⟩
+    list := fun _ f _ => ⟨f.id != 2, false⟩
+    parseErr := fun _ _ _ => false
+    fault := fun _ => false
+    cancel := fun _ => false }
+
+def demoScript : List Peer :=
+  [.hdr true, .adv [.feat ⟨nsTLS, 1⟩ true, .feat ⟨2, 1⟩ true],
+   .hdr true, .adv [.feat ⟨2, 1⟩ true],
+   .hdr true, .adv [.feat ⟨4, 1⟩ false, .feat ⟨3, 1⟩ true],
+   .adv []]
+
+/-- an initiator's complete handshake -/
+def demo : Conf := run demoC demoO 60 (init 0 demoScript [⟨nsTLS, 1⟩, ⟨2, 1⟩, ⟨4, 1⟩, ⟨3, 1⟩])
+
+example : Reach demoC demoO 0 demoScript [⟨nsTLS, 1⟩, ⟨2, 1⟩, ⟨4, 1⟩, ⟨3, 1⟩] demo := ⟨60, rfl⟩
+example : demo.pc = .done := by decide
+example : demo.st = bSecure ||| bAuthn ||| bReady := by decide
+-- hypotheses of `C01_prereq`, `C01_negotiable`, `C01_once_at`, `C01_advertised_at`
+example : Ev.neg fSasl bSecure true false false ⟨bAuthn, true, false⟩ ∈ demo.tr := by decide
+-- hypotheses of `C01_ready_sound`: the library decided (no feature mask carries `Ready`)
+example : has (0 : St) bReady = false := by decide
+example : headRestart demo.tr = false := by decide
+-- the mandatory feature was taken after the voluntary one (`C01_voluntary_first`)
+example : (demo.tr.filterMap fun e => match e with
+    | .neg f _ req _ _ _ => some (f.id, req) | _ => none) = [(3, true), (2, false), (1, true), (0, true)] := by
+  decide
+
+/-- the receiving side of the same handshake; the last selection is refused -/
+def demoRecv : Conf :=
+  run demoC demoO 60 (init bReceived
+    [.hdr true, .elem ⟨nsTLS, 1⟩ false true, .hdr true, .elem ⟨2, 1⟩ false true, .hdr true,
+     .elem ⟨4, 1⟩ false true, .elem ⟨4, 1⟩ true true] [])
+
+example : demoRecv.pc = .fail .policy := by decide
+-- hypothesis of `C01_recv_refuse` and of `C01_recv_advert`
+example : Ev.refuse ⟨4, 1⟩ ∈ demoRecv.tr := by decide
+example : Ev.listOut (bReceived ||| bSecure ||| bAuthn) [fVol, fBind] true ∈ demoRecv.tr := by decide
+
 end XmppModel.Props.C01
